@@ -4,6 +4,7 @@
 package main
 
 import (
+	"regexp"
 	"encoding/json"
 	"fmt"
 	"math/big"
@@ -20,6 +21,11 @@ type Failure struct {
 	Got  string `json:"got"`
 	Want string `json:"want"`
 	Kind string `json:"kind"` // value | fault | mutated | noncanonical
+	Class string `json:"class"` // small: every integer literal below 2^62 in magnitude; edge: one in [2^62, 2^63]; big: one beyond, or operands forced to bignums
+}
+
+func mkF(op, lisp, got, want, kind string) Failure {
+	return Failure{Op: op, Lisp: lisp, Got: got, Want: want, Kind: kind}
 }
 
 func grid() []*big.Int {
@@ -96,6 +102,54 @@ func evalEach(tmpl, a string) (string, string) {
 	return a, ""
 }
 
+// evalBound evaluates src with x and y bound to bignum objects holding a and b.
+func evalBound(src string, a, b *big.Int) (res string, fault string) {
+	defer func() {
+		if r := recover(); r != nil {
+			switch r.(type) {
+			case *slip.Panic, slip.Object:
+				res = "#<condition>"
+			default:
+				fault = fmt.Sprint(r)
+			}
+		}
+	}()
+	s := slip.NewScope()
+	s.Let(slip.Symbol("x"), (*slip.Bignum)(new(big.Int).Set(a)))
+	s.Let(slip.Symbol("y"), (*slip.Bignum)(new(big.Int).Set(b)))
+	code := slip.ReadString(src, s)
+	var v slip.Object
+	for _, o := range code {
+		v = s.Eval(o, 0)
+	}
+	return slip.ObjectString(v), ""
+}
+
+var intLit = regexp.MustCompile(`-?[0-9]+`)
+
+func classOf(src string) string {
+	if strings.Contains(src, "bignum") {
+		return "big"
+	}
+	cls := "small"
+	p62 := new(big.Int).Lsh(big.NewInt(1), 62)
+	p63 := new(big.Int).Lsh(big.NewInt(1), 63)
+	for _, m := range intLit.FindAllString(src, -1) {
+		v, ok := new(big.Int).SetString(m, 10)
+		if !ok {
+			continue
+		}
+		v.Abs(v)
+		switch {
+		case v.Cmp(p63) > 0:
+			return "big"
+		case v.Cmp(p62) >= 0:
+			cls = "edge"
+		}
+	}
+	return cls
+}
+
 func floorDiv(a, b *big.Int) (*big.Int, *big.Int) {
 	q, r := new(big.Int), new(big.Int)
 	q.QuoRem(a, b, r) // truncated
@@ -114,20 +168,23 @@ func main() {
 	g := grid()
 	var fails []Failure
 	seen := map[string]int{}
+	perClass := map[string]int{}
 	report := func(f Failure) {
+		f.Class = classOf(f.Lisp)
 		seen[f.Op+"/"+f.Kind]++
-		if seen[f.Op+"/"+f.Kind] <= 3 {
+		perClass[f.Op+"/"+f.Kind+"/"+f.Class]++
+		if perClass[f.Op+"/"+f.Kind+"/"+f.Class] <= 3 {
 			fails = append(fails, f)
 		}
 	}
 	check := func(op, src string, want string) {
 		got, fault := eval(src)
 		if fault != "" {
-			report(Failure{op, src, fault, want, "fault"})
+			report(mkF(op, src, fault, want, "fault"))
 			return
 		}
 		if got != want {
-			report(Failure{op, src, got, want, "value"})
+			report(mkF(op, src, got, want, "value"))
 		}
 	}
 	type bin struct {
@@ -158,6 +215,22 @@ func main() {
 			q, r := floorDiv(a, b)
 			if r.Sign() != 0 {
 				q.Add(q, big.NewInt(1))
+			}
+			return q.String(), true
+		}},
+		{"round", func(a, b *big.Int) (string, bool) {
+			if b.Sign() == 0 {
+				return "#<condition>", true
+			}
+			q, r := floorDiv(a, b) // r/b in [0,1)
+			twice := new(big.Int).Abs(new(big.Int).Lsh(r, 1))
+			switch twice.Cmp(new(big.Int).Abs(b)) {
+			case 1:
+				q.Add(q, big.NewInt(1))
+			case 0:
+				if q.Bit(0) != 0 {
+					q.Add(q, big.NewInt(1))
+				}
 			}
 			return q.String(), true
 		}},
@@ -208,7 +281,7 @@ func main() {
 					continue
 				}
 				src := fmt.Sprintf("(%s %s %s)", op.name, lit(a), lit(b))
-				if op.name == "floor" || op.name == "truncate" || op.name == "ceiling" {
+				if op.name == "floor" || op.name == "truncate" || op.name == "ceiling" || op.name == "round" {
 					src = fmt.Sprintf("(values (%s %s %s))", op.name, lit(a), lit(b))
 				}
 				check(op.name, src, want)
@@ -234,6 +307,35 @@ func main() {
 	for _, op := range uns {
 		for _, a := range g {
 			check(op.name+"/1", fmt.Sprintf("(%s %s)", op.name, lit(a)), op.f(a))
+		}
+	}
+	// solver models: operand values from a refuted obligation, forced into the bignum representation
+	// (the bignum branches are reached with small values too, when the other operand is a bignum)
+	if extra := os.Getenv("ARITH_EXTRA"); extra != "" {
+		var xs []*big.Int
+		for _, f := range strings.Split(extra, ",") {
+			if v, ok := new(big.Int).SetString(strings.TrimSpace(f), 10); ok {
+				xs = append(xs, v)
+			}
+		}
+		for _, op := range bins {
+			for _, a := range xs {
+				for _, b := range xs {
+					want, _ := op.f(a, b)
+					src := fmt.Sprintf("(%s x y)", op.name)
+					switch op.name {
+					case "floor", "truncate", "ceiling", "round":
+						src = fmt.Sprintf("(values (%s x y))", op.name)
+					}
+					got, fault := evalBound(src, a, b)
+					shown := fmt.Sprintf("%s with x = bignum %s, y = bignum %s", src, a, b)
+					if fault != "" {
+						report(mkF(op.name, shown, fault, want, "fault"))
+					} else if got != want {
+						report(mkF(op.name, shown, got, want, "value"))
+					}
+				}
+			}
 		}
 	}
 	// operands are never altered: bind, operate, re-print (integers and ratios)
@@ -296,7 +398,7 @@ func main() {
 				got, fault = evalEach(m.tmpl, a)
 			}
 			if fault == "" && got != a && got != "#<condition>" && got != "nil" {
-				report(Failure{m.op, src, got, a, "mutated"})
+				report(mkF(m.op, src, got, a, "mutated"))
 			}
 		}
 	}
